@@ -441,7 +441,7 @@ def gen_bare_case(g, cid, opts=None):
     # one leaf of the first inner type runs a fallible check in its Into expression (`chk(~, id)?`): when it fires, every fallible
     # Into / IntoExisting flavour of the *outer* struct has to surface that error
     # the deriving struct may be a tuple struct mapped to the field-named counterpart through `as {}` and #[map(name)] on its own members
-    fc.s_tuple = g.pick([False, False, False, "named_t", "tuple_t"])
+    fc.s_tuple = g.pick([False, False, "named_t", "tuple_t", "tuple_t"])
     fc.chk = None
     if g.chance(0.5):
         l = fc.inners[0]["leaves"][0]
@@ -465,9 +465,15 @@ def render_bare_module(fc, g, fallible, draws):
     tn = {}
     if tt:
         nxt = len(order)
+        # own members may designate another slot than their own position (a permutation among the own members' slots)
+        own_slots = [idx for idx, (kd, _) in enumerate(order) if kd == "own"]
+        perm = list(own_slots)
+        if len(own_slots) >= 2 and fc.cid % 2 == 0:
+            _random.Random(fc.cid + 1).shuffle(perm)
+        slot_of = dict(zip(own_slots, perm))
         for idx, (kd, x) in enumerate(order):
             if kd == "own":
-                tn[x["name"]] = str(idx)
+                tn[x["name"]] = str(slot_of[idx])
             else:
                 # the slot of the parent member itself is free on the counterpart: the inner type's first leaf lives there
                 for li, l in enumerate(x["leaves"]):
@@ -532,10 +538,22 @@ def render_bare_module(fc, g, fallible, draws):
     flds = []
     for kd, x in order:
         if kd == "own":
-            # by position an own member needs no instruction; half of them name their (own) index explicitly all the same
-            explicit = tt and (fc.cid + len(flds)) % 2 == 0
-            flds.append(Field(x["name"], x["ty"], [Instr("map", "map", container=None, member=x["name"], action=None)] if st == "named_t" else
-                              [Instr("map", "map", container=None, member=len(flds), action=None)] if explicit else []))
+            # by position an own member needs no instruction; half of them name their index explicitly all the same, and a member
+            # that designates another slot than its own position always does (some with expressions on the way)
+            slot = int(tn[x["name"]]) if tt else None
+            explicit = tt and ((fc.cid + len(flds)) % 2 == 0 or slot != len(flds))
+            kx = (fc.cid * 7 + len(flds)) % 40 + 1
+            with_expr = tt and explicit and (fc.cid + len(flds)) % 4 == 0
+            x["kx"] = kx if with_expr else None
+            if st == "named_t":
+                at_ = [Instr("map", "map", container=None, member=x["name"], action=None)]
+            elif with_expr:
+                at_ = [Instr("from", "map", container=None, member=slot, action=f"~.wrapping_add({kx})", braced=False), Instr("into", "map", container=None, member=slot, action=f"~.wrapping_sub({kx})", braced=False)]
+            elif explicit:
+                at_ = [Instr("map", "map", container=None, member=slot, action=None)]
+            else:
+                at_ = []
+            flds.append(Field(x["name"], x["ty"], at_))
         else:
             flds.append(Field(x["fname"], x["ty"], [Instr("parent", "parent", container=None, fields=None)]))
     it.fields = flds
@@ -549,14 +567,15 @@ def render_bare_module(fc, g, fallible, draws):
     for fl in it.fields:
         b = next((x for x in fc.inners if x["fname"] == fl.name), None)
         if b is None:
-            sv.append(f"{lbl(fl.name)}t.{tn[fl.name]},")
+            o_ = next(o for o in fc.own if o["name"] == fl.name)
+            sv.append(f"{lbl(fl.name)}t.{tn[fl.name]}" + (f".wrapping_add({o_['kx']})" if o_.get("kx") else "") + ",")
         else:
             sv.append(f"{lbl(fl.name)}{b['ty']} {{ " + " ".join(f"{l['name']}: t.{tn[l['name']]}.wrapping_add({l['k'] % 50 + 1})," for l in b["leaves"]) + " },")
     sctor = (lambda parts: "S(" + " ".join(parts) + ")") if st else (lambda parts: "S { " + " ".join(parts) + " }")
     L.append(f"fn ref_from(t: &T) -> {'Result<S, super::Er>' if fallible else 'S'} {{ {wrap(sctor(sv))} }}")
 
     def tvals(existing):
-        v = [(o["name"], f"s.{acc[o['name']]}" if not (fc.overlap and fc.overlap["field"] == o["name"]) else str(fc.overlap["k"])) for o in fc.own]
+        v = [(o["name"], (f"s.{acc[o['name']]}" + (f".wrapping_sub({o['kx']})" if o.get("kx") else "")) if not (fc.overlap and fc.overlap["field"] == o["name"]) else str(fc.overlap["k"])) for o in fc.own]
         for b in fc.inners:
             v += [(l["name"], f"s.{acc[b['fname']]}.{l['name']}.wrapping_sub({l['k'] % 50 + 1})") for l in b["leaves"]]
         v += [(e["name"], f"pre.{tn[e['name']]}" if existing else "Default::default()") for e in fc.extra]
